@@ -1283,7 +1283,7 @@ func rtParam(r *Run, fn *ssa.Function, a []Value) Value {
 		if strings.HasPrefix(name, "kf_") {
 			return r.mkInt(0)
 		}
-		r.unsupported("missing job parameter %q", name)
+		panic(fmt.Sprintf("harness asks for job parameter %q, which the job does not set", name))
 	}
 	return r.mkInt(v)
 }
